@@ -130,6 +130,26 @@ pub fn scan_discard(data: &[u8]) -> Scan {
     }
 }
 
+/// Discard mode over data that is complete in itself (a datagram): nothing more will arrive, so the incomplete
+/// beginning of a frame is noise like any other and the search goes on one byte behind its start.
+pub fn scan_discard_complete(data: &[u8]) -> Scan {
+    let mut frames = Vec::new();
+    let mut pos = 0;
+    while pos < data.len() {
+        match try_frame(&data[pos..]) {
+            TryFrame::Ok(f, n) => {
+                frames.push((pos, f));
+                pos += n;
+            }
+            TryFrame::Bad | TryFrame::Incomplete => pos += 1,
+        }
+    }
+    Scan {
+        frames,
+        error_at: None,
+    }
+}
+
 /// `data` is the incomplete beginning of a frame (try_frame says Incomplete): can it still become a valid frame, or is it
 /// already certain that it cannot (length octet below 5, or a block that is completely present fails its CRC)?
 pub fn doomed_prefix(data: &[u8]) -> bool {
